@@ -159,6 +159,28 @@ impl Property for C09 {
             case.input = lines_to_bytes(&lines);
             return case;
         }
+        if t.chance(1, 150) {
+            // more distinct regular expressions in one run than any cache of compiled patterns holds (each row brings its own)
+            case.kind = "many-patterns".into();
+            case.defs = "CREATE TABLE t(line = '^(\\\\S+) (\\\\S+)$', line[1] => subject TEXT, line[2] => rule TEXT);".into();
+            case.query = format!("SELECT subject FROM t WHERE {}(subject, rule)", *t.pick(&["regex_matches", "regexp_matches"]));
+            let n = *t.pick(&[300usize, 1023, 1024, 1025, 1100, 2100, 4200]);
+            let offset = t.draw(1000);
+            let lines: Vec<String> = (0..n).map(|i| format!("s{} s{}{}", i + offset, i + offset, if i % 7 == 3 { "x" } else { "" })).collect();
+            case.input = lines_to_bytes(&lines);
+            return case;
+        }
+        if t.chance(1, 150) {
+            // one group whose values are of two types (a CASE with a TEXT and an INT branch), a few dozen of them: the median is taken over an order on all of them
+            case.kind = "mixed-percentile".into();
+            case.defs = "CREATE TABLE t(line = '^(\\\\S+) (-?[0-9]+)$', line[1] => status TEXT, line[2] => ms INT);".into();
+            let p = *t.pick(&["0.5", "0.9", "0.0", "1.0", "0.25"]);
+            case.query = format!("SELECT COUNT(*) AS requests, PERCENTILE(CASE WHEN status = 'timeout' THEN status ELSE ms END, {}) AS p, MAX(CASE WHEN status = 'timeout' THEN status ELSE ms END) AS hi FROM t{}", p, if t.chance(1, 2) { " GROUP BY status = 'none'" } else { "" });
+            let n = 5 + t.draw(90);
+            let lines: Vec<String> = (0..n).map(|_| format!("{} {}", *t.pick(&["ok", "timeout", "ok", "timeout", "error"]), t.range(-5, 2000))).collect();
+            case.input = lines_to_bytes(&lines);
+            return case;
+        }
         match t.weighted(&[4, 3, 2, 1, 1, 3]) {
             0 => {
                 case.kind = "select-hazard".into();
@@ -317,6 +339,8 @@ impl Property for C09 {
             "regex-table" => "regex-table",
             "json-table" => "json-table",
             "trunc-invariant" => "timezone",
+            "many-patterns" => "many-patterns",
+            "mixed-percentile" => "mixed-percentile",
             _ => "timezone",
         });
         if std::str::from_utf8(&case.input).is_err() {
